@@ -15,6 +15,7 @@ const (
 	Long                         // one leaf becomes very long, the rest short
 	Meta                         // JSON-metacharacter-heavy values
 	Tiny                         // 1-character values
+	CrossEqual                   // one value shared by string leaves of ALL positional classes (str, $date, $oid, $binary.base64)
 )
 
 type ReassignOpts struct {
@@ -31,6 +32,16 @@ func (g *Gen) Reassign(tree *Node, o ReassignOpts) *Node {
 	t := tree.Clone()
 	eq := map[string]string{}
 	longDone := false
+	cross := ""
+	if o.Mode == CrossEqual {
+		// the shared value looks like an ObjectId half of the time: an ordinary
+		// string field holding a hex id is everyday data
+		if g.chance(0.5) {
+			cross = g.OID()
+		} else {
+			cross = g.Dress("ascii")
+		}
+	}
 	t.Walk(nil, func(_ []string, n *Node) {
 		if n.T == nil {
 			return
@@ -54,6 +65,8 @@ func (g *Gen) Reassign(tree *Node, o ReassignOpts) *Node {
 			}
 			_ = suffix
 			switch o.Mode {
+			case CrossEqual:
+				n.S = cross
 			case AllEqual:
 				if v, ok := eq["str"]; ok {
 					n.S = v
@@ -92,10 +105,19 @@ func (g *Gen) Reassign(tree *Node, o ReassignOpts) *Node {
 			n.S = g.Email()
 		case "date":
 			n.S = g.ISODate()
+			if cross != "" {
+				n.S = cross
+			}
 		case "oid":
 			n.S = g.OID()
+			if cross != "" {
+				n.S = cross
+			}
 		case "b64":
 			n.S = g.B64()
+			if cross != "" {
+				n.S = cross
+			}
 		case "num":
 			if o.Numbers && n.K == Num {
 				if o.Mode == AllEqual {
